@@ -3,135 +3,12 @@
    last delete_threshold+1 playlist versions are still there. *)
 From Coq Require Import ZArith Bool List Lia.
 From Lal Require Import Common.LBytes Hls.HlsFloat Hls.HlsFs Hls.HlsPlaylist Hls.HlsMuxer Hls.HlsConsistent
-  Hls.HlsParse Hls.HlsFsProofs Hls.HlsFloatProofs Hls.HlsTextProofs Hls.HlsParseProofs Hls.HlsInv Hls.HlsInvProofs Hls.HlsRunProofs.
+  Hls.HlsParse Hls.HlsFsProofs Hls.HlsFloatProofs Hls.HlsTextProofs Hls.HlsParseProofs Hls.HlsInv Hls.HlsInvProofs Hls.HlsLiveProofs Hls.HlsRunProofs.
 Open Scope Z_scope.
-
-(* ---------- target duration ---------- *)
-Definition le_val (a b : fl) : Prop := f_ltb b a = false.
-
-Lemma le_val_spec a b : le_val a b <-> f_num a * f_den b <= f_num b * f_den a.
-Proof. unfold le_val, f_ltb. rewrite Z.ltb_ge. lia. Qed.
-
-Lemma le_val_refl a : le_val a a.
-Proof. apply le_val_spec. lia. Qed.
-
-Lemma le_val_trans a b d : le_val a b -> le_val b d -> le_val a d.
-Proof.
-  rewrite !le_val_spec. intros H1 H2.
-  pose proof (f_den_pos a). pose proof (f_den_pos b). pose proof (f_den_pos d).
-  assert (f_num a * f_den d * f_den b <= f_num d * f_den a * f_den b) by nia. nia.
-Qed.
-
-Lemma le_val_total a b : f_ltb a b = true -> le_val a b.
-Proof. unfold le_val, f_ltb. rewrite Z.ltb_lt, Z.ltb_ge. lia. Qed.
-
-Lemma max_dur_spec l : forall init,
-  le_val init (max_dur l init) /\ (forall f, In f l -> le_val (fi_dur f) (max_dur l init)) /\
-  (max_dur l init = init \/ exists f, In f l /\ max_dur l init = fi_dur f).
-Proof.
-  induction l as [|g l IH]; intros init; cbn [max_dur fold_left].
-  - split; [apply le_val_refl|]. split; [intros f []|now left].
-  - set (init' := if f_ltb init (fi_dur g) then fi_dur g else init).
-    destruct (IH init') as (A & B & C). fold (max_dur l init') in *.
-    assert (Hi : le_val init init' /\ le_val (fi_dur g) init').
-    { unfold init'. destruct (f_ltb init (fi_dur g)) eqn:E.
-      - split; [now apply le_val_total|apply le_val_refl].
-      - split; [apply le_val_refl|exact E]. }
-    destruct Hi as [Hi1 Hi2].
-    split; [eapply le_val_trans; eauto|]. split.
-    + intros f [<-|Hf]; [eapply le_val_trans; eauto|now apply B].
-    + destruct C as [C|(f & Hf & C)].
-      * unfold init' in C. destruct (f_ltb init (fi_dur g)); [right; exists g; split; [now left|exact C]|now left].
-      * right. exists f. split; [now right|exact C].
-Qed.
-
-Lemma live_target_ge c l f :
-  0 <= c_ms c <= 2 ^ 35 -> (forall g, In g l -> dur_ok (fi_dur g)) -> In f l ->
-  listed_seconds (seg_of f) <= live_target c l.
-Proof.
-  intros Hms Hd Hf. unfold listed_seconds, live_target, calc_target. cbn [s_dur seg_of].
-  destruct (max_dur_spec l (frag_target c)) as (A & B & C).
-  apply calc_target_ge; [now apply Hd| |now apply B].
-  destruct C as [-> | (g & Hg & ->)]; [|now apply Hd].
-  unfold frag_target. apply frag_target_ok. lia.
-Qed.
-
-Lemma calc_target_nonneg x : 0 <= f_num x -> 0 <= calc_target x.
-Proof.
-  intros Hx. unfold calc_target. apply Z.div_pos; [|lia].
-  assert (0 <= f_round (f_mul x (f_of_Z 1000))); [|lia].
-  unfold f_round. pose proof (f_den_pos (f_mul x (f_of_Z 1000))).
-  apply Z.div_pos; [|lia].
-  assert (0 <= f_num (f_mul x (f_of_Z 1000))); [|lia].
-  unfold f_mul. apply rnd53_nonneg.
-  - apply Z.mul_nonneg_nonneg; [exact Hx|]. unfold f_of_Z. apply rnd53_nonneg; lia.
-  - apply Z.mul_pos_pos; apply f_den_pos.
-Qed.
-
-
-(* ---------- the invariant gives the instantaneous clauses ---------- *)
-Lemma in_frags_in_playlist c m f :
-  In f (frags_in_playlist c m) -> exists k, 0 <= k < m_nfrags m /\ f = get_frag c m k.
-Proof.
-  unfold frags_in_playlist. intros H. apply in_map_iff in H. destruct H as (k & <- & Hk).
-  apply in_seq in Hk. exists (Z.of_nat k). split; [lia|reflexivity].
-Qed.
-
-Lemma inv_listed_ok c m s k :
-  Inv c m s -> 0 <= k < m_nfrags m -> seg_file_ok s (seg_of (get_frag c m k)).
-Proof.
-  intros [H1 H2 H3 H4 H5 H6 H7 H8 H9 H10 H11 H12 H13] Hk.
-  rewrite get_frag_sl. set (i := m_frag m + k).
-  assert (Hw : nclosed m - cap c < i < nclosed m) by (unfold i, nclosed, cap; lia).
-  assert (Hi : 0 <= i) by (unfold i; lia).
-  destruct (H5 i Hi Hw) as (A & B & C). destruct (H9 i Hi Hw) as (f & Hf & Hc & Hw188 & pp & rest & Hd & Hp).
-  unfold seg_file_ok, seg_of. cbn [s_now s_id]. rewrite A, C.
-  exists f, pp, rest. auto.
-Qed.
-
-Lemma max_dur_nonneg l init :
-  0 <= f_num init -> (forall g, In g l -> 0 <= f_num (fi_dur g)) -> 0 <= f_num (max_dur l init).
-Proof.
-  intros Hi Hl. destruct (max_dur_spec l init) as (_ & _ & [-> | (g & Hg & ->)]); auto.
-Qed.
-
-Lemma inv_live_wf c m s e : Inv c m s -> pl_wf (live_playlist c m e).
-Proof.
-  intros [H1 H2 H3 H4 H5 H6 H7 H8 H9 H10 H11 H12 H13]. unfold pl_wf, live_playlist. cbn [pl_target pl_seq pl_segs].
-  assert (Hd : forall g, In g (frags_in_playlist c m) -> dur_ok (fi_dur g)).
-  { intros g Hg. apply in_frags_in_playlist in Hg. destruct Hg as (k & _ & ->). apply H13. }
-  split; [|split; [lia|]].
-  - unfold live_target. apply calc_target_nonneg. apply max_dur_nonneg.
-    + unfold frag_target. apply (frag_target_ok (c_ms c)). lia.
-    + intros g Hg. apply Hd. exact Hg.
-  - apply Forall_forall. intros sg Hsg. apply in_map_iff in Hsg. destruct Hsg as (g & <- & Hg). cbn. now apply Hd.
-Qed.
-
-Lemma inv_parse c m s e : Inv c m s ->
-  parse_live (print_live (c_stream c) (live_playlist c m e)) = Some (abs_pl (c_stream c) (live_playlist c m e)).
-Proof.
-  intros HI. apply parse_print_live; [|now apply (inv_live_wf c m s)].
-  destruct HI as [H1 _ _ _ _ _ _ _ _ _ _ _ _]. apply H1.
-Qed.
-
-Lemma inv_live_ok c m s : Inv c m s -> live_ok c s.
-Proof.
-  intros HI f Hf.
-  destruct (Z_le_gt_dec (nclosed m) 0) as [Hz|Hz].
-  - destruct HI as [H1 H2 H3 H4 H5 H6 H7 H8 H9 H10 H11 H12 H13].
-    assert (nclosed m = 0) by (unfold nclosed in *; lia). rewrite H11 in Hf by assumption. discriminate.
-  - pose proof HI as [H1 H2 H3 H4 H5 H6 H7 H8 H9 H10 H11 H12 H13].
-    destruct (H12 ltac:(lia)) as [e He]. rewrite He in Hf. injection Hf as <-.
-    exists (live_playlist c m e). split; [reflexivity|]. split; [now apply (inv_parse c m s)|]. cbn [pl_segs pl_target live_playlist].
-    split; apply Forall_forall; intros sg Hsg; apply in_map_iff in Hsg; destruct Hsg as (g & <- & Hg).
-    + apply live_target_ge; [lia| |exact Hg].
-      intros g' Hg'. apply in_frags_in_playlist in Hg'. destruct Hg' as (k & _ & ->). apply H13.
-    + apply in_frags_in_playlist in Hg. destruct Hg as (k & Hk & ->). now apply inv_listed_ok.
-Qed.
 
 (* ---------- the three trace theorems ---------- *)
 Theorem every_prefix_live_ok c evs k :
-  cfg_ok c -> wf_evs c Clean evs -> live_ok c (state_at c evs k).
+  cfg_ok c -> wf_evs c Clean 0 evs -> live_ok c (state_at c evs k).
 Proof.
   intros Hc Hwf. destruct (run_is_chain c evs Hc Hwf) as (m' & Hch).
   destruct (chain_point c _ _ _ _ k Hch (inv_new c Hc)) as (mk & HI).
@@ -140,7 +17,7 @@ Qed.
 
 (* the same, read off the parse result: every URI the playlist lists names a good segment file *)
 Theorem every_prefix_parsed c evs k f t :
-  cfg_ok c -> wf_evs c Clean evs ->
+  cfg_ok c -> wf_evs c Clean 0 evs ->
   fs_lookup PLive (state_at c evs k) = Some f -> parse_live (fdata f) = Some t ->
   forall ts, In ts (t_segs t) ->
     (t_ms ts + 500) / 1000 <= t_target t /\
@@ -155,16 +32,6 @@ Proof.
   - exists sg. split; [reflexivity|now apply HS].
 Qed.
 
-Lemma inv_live_content c m s f :
-  Inv c m s -> fs_lookup PLive s = Some f ->
-  0 < nclosed m /\ exists e, fdata f = print_live (c_stream c) (live_playlist c m e).
-Proof.
-  intros [H1 H2 H3 H4 H5 H6 H7 H8 H9 H10 H11 H12 H13] Hf.
-  destruct (Z_le_gt_dec (nclosed m) 0) as [Hz|Hz].
-  - assert (nclosed m = 0) by (unfold nclosed in *; lia). rewrite H11 in Hf by assumption. discriminate.
-  - split; [lia|]. destruct (H12 ltac:(lia)) as [e He]. rewrite He in Hf. injection Hf as <-. now exists e.
-Qed.
-
 Lemma ver_at_diff c evs j k : (j <= k)%nat ->
   ver_at c evs k - ver_at c evs j = count_live (skipn j (firstn k (run c evs))).
 Proof.
@@ -174,35 +41,146 @@ Proof.
   rewrite E at 1. rewrite filter_app, app_length. lia.
 Qed.
 
+Lemma inv_parse_shown c m s f t :
+  Inv c m s -> fs_lookup PLive s = Some f -> parse_live (fdata f) = Some t -> t_seq t = shown m.
+Proof.
+  intros HI Hf Hp. destruct (inv_live_content c m s f HI Hf) as (pl & A & B & C & _).
+  rewrite A, parse_print_live in Hp; [|destruct HI as [H1 _ _ _ _ _ _ _ _ _ _ _ _]; apply H1|exact B].
+  injection Hp as <-. exact C.
+Qed.
+
+(* across re-publications too: Muxer.Start carries on with the numbering of the playlist it finds *)
 Theorem media_sequence_parsed c evs j k fj fk tj tk :
-  cfg_ok c -> wf_evs c Clean evs -> (j <= k)%nat ->
+  cfg_ok c -> wf_evs c Clean 0 evs -> (j <= k)%nat ->
   no_removeall (skipn j (firstn k (run c evs))) ->
   fs_lookup PLive (state_at c evs j) = Some fj -> fs_lookup PLive (state_at c evs k) = Some fk ->
   parse_live (fdata fj) = Some tj -> parse_live (fdata fk) = Some tk -> t_seq tj <= t_seq tk.
 Proof.
   intros Hc Hwf Hjk HN Hfj Hfk Pj Pk. destruct (run_is_chain c evs Hc Hwf) as (m' & Hch).
   destruct (chain_two_points c _ _ _ _ j k Hch (inv_new c Hc) Hjk HN) as (mj & mk & HIj & HIk & (_ & Hle & _) & _).
-  destruct (inv_live_content c mj _ fj HIj Hfj) as (_ & ej & Ej).
-  destruct (inv_live_content c mk _ fk HIk Hfk) as (_ & ek & Ek).
-  rewrite Ej, (inv_parse c mj _ ej HIj) in Pj. rewrite Ek, (inv_parse c mk _ ek HIk) in Pk.
-  injection Pj as <-. injection Pk as <-. cbn. exact Hle.
+  rewrite (inv_parse_shown c mj _ fj tj HIj Hfj Pj), (inv_parse_shown c mk _ fk tk HIk Hfk Pk). exact Hle.
 Qed.
 
 Theorem media_sequence_monotone c evs j k fj fk :
-  cfg_ok c -> wf_evs c Clean evs -> (j <= k)%nat ->
+  cfg_ok c -> wf_evs c Clean 0 evs -> (j <= k)%nat ->
   no_removeall (skipn j (firstn k (run c evs))) ->
   fs_lookup PLive (state_at c evs j) = Some fj -> fs_lookup PLive (state_at c evs k) = Some fk ->
   exists pj pk, fdata fj = print_live (c_stream c) pj /\ fdata fk = print_live (c_stream c) pk /\ pl_seq pj <= pl_seq pk.
 Proof.
   intros Hc Hwf Hjk HN Hfj Hfk. destruct (run_is_chain c evs Hc Hwf) as (m' & Hch).
   destruct (chain_two_points c _ _ _ _ j k Hch (inv_new c Hc) Hjk HN) as (mj & mk & HIj & HIk & (_ & Hle & _) & _).
-  destruct (inv_live_content c mj _ fj HIj Hfj) as (_ & ej & Ej).
-  destruct (inv_live_content c mk _ fk HIk Hfk) as (_ & ek & Ek).
-  exists (live_playlist c mj ej), (live_playlist c mk ek). cbn. auto.
+  destruct (inv_live_content c mj _ fj HIj Hfj) as (pj & Aj & _ & Cj & _).
+  destruct (inv_live_content c mk _ fk HIk Hfk) as (pk & Ak & _ & Ck & _).
+  exists pj, pk. split; [exact Aj|]. split; [exact Ak|]. lia.
 Qed.
 
+(* ---------- listed segments stay, across re-publications too ---------- *)
+(* files numbered below the base of the current publication are never touched again *)
+Lemma chain_keeps_old c m s ops m' : chain c m s ops m' -> no_removeall ops ->
+  forall now id, id < m_base m -> fs_lookup (PTs now id) (apply_all s ops) = fs_lookup (PTs now id) s.
+Proof.
+  induction 1 as [m s|m s o m1 ops m3 Hr Hi Hc IH|m s m1 ops m3 Hl Hsp Hn Hi Hc IH]; intros HN now id Hid.
+  - reflexivity.
+  - inversion HN as [|? ? Ho HN']; subst. cbn [apply_all fold_left]. fold (apply_all (apply s o) ops).
+    assert (Hb : m_base m <= m_base m1 /\ fs_lookup (PTs now id) (apply s o) = fs_lookup (PTs now id) s).
+    { destruct o; cbn in Ho; try contradiction; cbn [rstep] in Hr;
+        try (destruct Hr as (_ & (Eb & _) & _ & Ht); split; [lia|];
+             apply lookup_apply_other; [exact I|]; intros Hin; specialize (Ht _ Hin); cbn in Ht; lia).
+      destruct Hr as ((_ & _ & Hb) & _). split; [exact Hb|reflexivity]. }
+    destruct Hb as [Hb El]. rewrite IH; [exact El|exact HN'|lia].
+  - apply IH; [exact HN|]. destruct Hsp as [Eb _]. lia.
+Qed.
+
+(* fragment i, opened at clock value now0: either a fragment of the current publication (the ring knows it),
+   or one of an earlier publication whose file is there *)
+Definition tracked (i now0 : Z) (m : mux) (s : fs) : Prop :=
+  (m_base m <= i < nclosed m /\ hnow m i = now0) \/
+  (i < m_base m /\ exists f, fs_lookup (PTs now0 i) s = Some f /\ fclosed f = true /\ good_data (fdata f)).
+
+Lemma tracked_same_pub c i now0 m m1 s :
+  Inv c m s -> same_pub m m1 -> nclosed m <= nclosed m1 -> m_base m <= i < nclosed m -> hnow m i = now0 ->
+  m_base m1 <= i < nclosed m1 /\ hnow m1 i = now0.
+Proof.
+  intros HI (Eb & l & Eh) Hn Hi Hh. rewrite <- Eb. split; [lia|].
+  destruct HI as [_ _ _ H4 _ _ _ _ _ _ _ _ _].
+  unfold hnow in *. rewrite <- Eb, Eh. rewrite app_nth1; [exact Hh|].
+  assert (0 <= b2z (m_opened m)) by (destruct (m_opened m); cbn; lia). lia.
+Qed.
+
+Lemma stay_chain c i now0 m s ops m' :
+  chain c m s ops m' -> no_removeall ops -> Inv c m s -> tracked i now0 m s -> nclosed m' - cap c < i ->
+  exists f, fs_lookup (PTs now0 i) (apply_all s ops) = Some f /\ fclosed f = true /\ good_data (fdata f).
+Proof.
+  induction 1 as [m s|m s o m1 ops m3 Hr Hi Hc IH|m s m1 ops m3 Hl Hsp Hn Hi Hc IH]; intros HN HI HT Hw.
+  - destruct HT as [[Hi <-]|[_ Hf]]; [|exact Hf].
+    destruct HI as [_ _ _ _ _ _ _ _ H9 _ _ _ _]. apply H9; lia.
+  - inversion HN as [|? ? Ho HN']; subst. cbn [apply_all fold_left]. fold (apply_all (apply s o) ops).
+    destruct (chain_mle c _ _ _ _ Hc HN') as [(Hle & _) _].
+    apply IH; [exact HN'|exact Hi| |exact Hw].
+    destruct o; cbn in Ho; try contradiction; cbn [rstep] in Hr.
+    + (* Muxer.Start *)
+      destruct Hr as ((_ & _ & Hb) & Hn1 & Hb1). cbn [apply]. right.
+      destruct HT as [[Hir <-]|[Hlt Hf]].
+      * split; [lia|]. destruct HI as [_ _ _ _ _ _ _ _ H9 _ _ _ _]. apply H9; lia.
+      * split; [lia|exact Hf].
+    + destruct Hr as ((Hn1 & _) & Hsp & _ & Ht). destruct HT as [[Hir Hh]|[Hlt (f & Hf & Hg)]].
+      * left. eapply tracked_same_pub; eauto.
+      * right. destruct Hsp as [Eb _]. split; [lia|]. exists f. split; [|exact Hg]. rewrite <- Hf.
+        apply lookup_apply_other; [exact I|]. intros Hin. specialize (Ht _ Hin). cbn in Ht. lia.
+    + destruct Hr as ((Hn1 & _) & Hsp & _ & Ht). destruct HT as [[Hir Hh]|[Hlt (f & Hf & Hg)]].
+      * left. eapply tracked_same_pub; eauto.
+      * right. destruct Hsp as [Eb _]. split; [lia|]. exists f. split; [|exact Hg]. rewrite <- Hf.
+        apply lookup_apply_other; [exact I|]. intros Hin. specialize (Ht _ Hin). cbn in Ht. lia.
+    + destruct Hr as ((Hn1 & _) & Hsp & _ & Ht). destruct HT as [[Hir Hh]|[Hlt (f & Hf & Hg)]].
+      * left. eapply tracked_same_pub; eauto.
+      * right. destruct Hsp as [Eb _]. split; [lia|]. exists f. split; [|exact Hg]. rewrite <- Hf.
+        apply lookup_apply_other; [exact I|]. intros Hin. specialize (Ht _ Hin). cbn in Ht. lia.
+    + destruct Hr as ((Hn1 & _) & Hsp & _ & Ht). destruct HT as [[Hir Hh]|[Hlt (f & Hf & Hg)]].
+      * left. eapply tracked_same_pub; eauto.
+      * right. destruct Hsp as [Eb _]. split; [lia|]. exists f. split; [|exact Hg]. rewrite <- Hf.
+        apply lookup_apply_other; [exact I|]. intros Hin. specialize (Ht _ Hin). cbn in Ht. lia.
+    + destruct Hr as ((Hn1 & _) & Hsp & _ & Ht). destruct HT as [[Hir Hh]|[Hlt (f & Hf & Hg)]].
+      * left. eapply tracked_same_pub; eauto.
+      * right. destruct Hsp as [Eb _]. split; [lia|]. exists f. split; [|exact Hg]. rewrite <- Hf.
+        apply lookup_apply_other; [exact I|]. intros Hin. specialize (Ht _ Hin). cbn in Ht. lia.
+    + destruct Hr as ((Hn1 & _) & Hsp & _ & Ht). destruct HT as [[Hir Hh]|[Hlt (f & Hf & Hg)]].
+      * left. eapply tracked_same_pub; eauto.
+      * right. destruct Hsp as [Eb _]. split; [lia|]. exists f. split; [|exact Hg]. rewrite <- Hf.
+        apply lookup_apply_other; [exact I|]. intros Hin. specialize (Ht _ Hin). cbn in Ht. lia.
+    + destruct Hr as ((Hn1 & _) & Hsp & _ & Ht). destruct HT as [[Hir Hh]|[Hlt (f & Hf & Hg)]].
+      * left. eapply tracked_same_pub; eauto.
+      * right. destruct Hsp as [Eb _]. split; [lia|]. exists f. split; [|exact Hg]. exact Hf.
+  - apply IH; [exact HN|exact Hi| |exact Hw].
+    destruct HT as [[Hir Hh]|[Hlt Hf]].
+    + left. eapply tracked_same_pub; eauto. lia.
+    + right. destruct Hsp as [Eb _]. split; [lia|exact Hf].
+Qed.
+
+Lemma chain_between c m s ops m' j k :
+  chain c m s ops m' -> Inv c m s -> (j <= k)%nat ->
+  exists mj mk, Inv c mj (apply_all s (firstn j ops)) /\ Inv c mk (apply_all s (firstn k ops)) /\
+    chain c mj (apply_all s (firstn j ops)) (skipn j (firstn k ops)) mk /\
+    apply_all s (firstn k ops) = apply_all (apply_all s (firstn j ops)) (skipn j (firstn k ops)).
+Proof.
+  intros Hch HI Hjk.
+  assert (E1 : ops = (firstn k ops ++ skipn k ops)%list) by (symmetry; apply firstn_skipn).
+  destruct (chain_split c m s ops m' Hch _ _ E1) as (mk & A1 & _).
+  assert (E2 : firstn k ops = (firstn j ops ++ skipn j (firstn k ops))%list).
+  { rewrite <- (firstn_skipn j (firstn k ops)) at 1. f_equal. rewrite firstn_firstn. f_equal. lia. }
+  destruct (chain_split c m s _ mk A1 _ _ E2) as (mj & B1 & B2).
+  pose proof (chain_inv_end _ _ _ _ _ B1 HI) as HIj.
+  pose proof (chain_inv_end _ _ _ _ _ B2 HIj) as HIk.
+  assert (Es : apply_all s (firstn k ops) = apply_all (apply_all s (firstn j ops)) (skipn j (firstn k ops))).
+  { rewrite apply_all_app, <- E2. reflexivity. }
+  exists mj, mk. split; [exact HIj|]. split; [rewrite Es; exact HIk|]. split; [exact B2|exact Es].
+Qed.
+
+(* Segments listed by the playlist at instant j (written by the current or by a previous publication) are still
+   there at instant k if at most delete_threshold further versions have been published and the directory has not
+   been removed: within a publication by the ring invariant, across a re-publication because the new muxer only
+   ever touches files it numbers itself. *)
 Theorem listed_segments_stay c evs j k fj :
-  cfg_ok c -> wf_evs c Clean evs -> (j <= k)%nat ->
+  cfg_ok c -> wf_evs c Clean 0 evs -> (j <= k)%nat ->
   no_removeall (skipn j (firstn k (run c evs))) ->
   ver_at c evs k - ver_at c evs j <= c_thr c ->
   fs_lookup PLive (state_at c evs j) = Some fj ->
@@ -210,23 +188,31 @@ Theorem listed_segments_stay c evs j k fj :
              Forall (seg_file_ok (state_at c evs k)) (pl_segs pj).
 Proof.
   intros Hc Hwf Hjk HN Hver Hfj. destruct (run_is_chain c evs Hc Hwf) as (m' & Hch).
-  destruct (chain_two_points c _ _ _ _ j k Hch (inv_new c Hc) Hjk HN) as (mj & mk & HIj & HIk & (Hn & _ & l & Hh) & Hcnt).
+  destruct (chain_between c _ _ _ _ j k Hch (inv_new c Hc) Hjk) as (mj & mk & HIj & HIk & Hjk_ch & Esk).
+  fold (state_at c evs j) in HIj, Hjk_ch, Esk. fold (state_at c evs k) in HIk, Esk.
+  destruct (chain_mle c _ _ _ _ Hjk_ch HN) as [_ Hcnt].
   rewrite <- ver_at_diff in Hcnt by exact Hjk.
-  destruct (inv_live_content c mj _ fj HIj Hfj) as (Hpos & ej & Ej).
-  exists (live_playlist c mj ej). split; [exact Ej|]. split; [rewrite Ej; now apply (inv_parse c mj _ ej HIj)|]. cbn [pl_segs live_playlist].
-  apply Forall_forall. intros sg Hsg. apply in_map_iff in Hsg. destruct Hsg as (g & <- & Hg).
-  apply in_frags_in_playlist in Hg. destruct Hg as (t & Ht & ->).
   pose proof HIj as [J1 J2 J3 J4 J5 J6 J7 J8 J9 J10 J11 J12 J13].
-  pose proof HIk as [K1 K2 K3 K4 K5 K6 K7 K8 K9 K10 K11 K12 K13].
-  rewrite get_frag_sl. set (i := m_frag mj + t).
-  assert (Hwj : nclosed mj - cap c < i < nclosed mj) by (unfold i, nclosed, cap; lia).
-  assert (Hi : 0 <= i) by (unfold i; lia).
-  destruct (J5 i Hi Hwj) as (A & B & C).
-  assert (Hwk : nclosed mk - cap c < i < nclosed mk) by (unfold i, nclosed, cap in *; lia).
-  destruct (K9 i Hi Hwk) as (f & Hf & Hcl & Hw188 & pp & rest & Hd & Hp).
-  assert (Hnow : hnow mk i = hnow mj i).
-  { unfold hnow. rewrite Hh. apply app_nth1.
-    assert (0 <= b2z (m_opened mj)) by (destruct (m_opened mj); cbn; lia). lia. }
-  unfold seg_file_ok, seg_of. cbn [s_now s_id]. rewrite A, C, <- Hnow.
-  exists f, pp, rest. auto.
+  destruct (Z.eqb_spec (nclosed mj) (m_base mj)) as [Hz|Hz].
+  - (* the playlist at instant j is the one a previous publication left: its files are never touched again *)
+    pose proof (J11 Hz) as Hp. unfold prev_ok in Hp. rewrite Hfj in Hp.
+    destruct Hp as (pl & -> & A & B & C & D). cbn [fdata]. exists pl. split; [reflexivity|].
+    split; [apply parse_print_live; [apply J1|exact A]|].
+    eapply Forall_impl; [|exact D]. intros sg (_ & Hid & Hok).
+    eapply seg_file_ok_ext; [|exact Hok]. rewrite Esk. now apply (chain_keeps_old c mj _ _ mk Hjk_ch HN).
+  - assert (Hlt : m_base mj < nclosed mj) by (unfold nclosed in *; lia).
+    destruct (J12 Hlt) as [ej Ej]. rewrite Ej in Hfj. injection Hfj as <-. cbn [fdata].
+    exists (live_playlist c mj ej). split; [reflexivity|]. split; [now apply (inv_parse c mj _ ej HIj)|].
+    cbn [pl_segs live_playlist].
+    apply Forall_forall. intros sg Hsg. apply in_map_iff in Hsg. destruct Hsg as (g & <- & Hg).
+    apply in_frags_in_playlist in Hg. destruct Hg as (t & Ht & ->).
+    rewrite get_frag_sl. set (i := m_frag mj + t).
+    assert (Hwj : nclosed mj - cap c < i < nclosed mj) by (unfold i, nclosed, cap; lia).
+    assert (Hi : m_base mj <= i) by (unfold i; lia).
+    destruct (J5 i Hi Hwj) as (A & B & C).
+    destruct (stay_chain c i (hnow mj i) mj _ _ mk Hjk_ch HN HIj) as (f & Hf & Hcl & Hw188 & pp & rest & Hd & Hp).
+    + left. split; [lia|reflexivity].
+    + unfold i, nclosed, cap in *. lia.
+    + unfold seg_file_ok, seg_of. cbn [s_now s_id]. rewrite A, C, Esk.
+      exists f, pp, rest. auto.
 Qed.
